@@ -6,7 +6,7 @@ CONSTANTS
   UBatches = {}
   WBatches = {}
   MaxDepth = 1
-  Containers = {"list", "tuple", "iter", "ndarray", "ndarray2d", "ndarray2d.F", "ndarray2d.T", "pd.Series", "pl.Series", "accessor", "df.accessor", "dask", "dask.thread"}
+  Containers = {"list", "tuple", "iter", "ndarray", "ndarray2d", "ndarray2d.F", "ndarray2d.T", "tuple2rows", "list2rows", "pd.Series", "pl.Series", "accessor", "df.accessor", "dask", "dask.thread"}
   CBatches <- MCCBatches
 CHECK_DEADLOCK FALSE
 INVARIANT BinContents
